@@ -1,4 +1,62 @@
 // Copyright Amazon.com, Inc. or its affiliates. All Rights Reserved.
 // SPDX-License-Identifier: Apache-2.0
 
-//! verification hook drivers: common
+//! verification hook drivers: shared scaffolding
+//!
+//! `endpoint::testing` only exists under `cfg(test)`; these are equivalent endpoint
+//! configurations for the external harness (they rely on `s2n-quic-core`'s `testing` feature,
+//! which the harness enables).
+
+use crate::{connection, endpoint};
+use s2n_quic_core::{event::testing::Subscriber, path, random, stateless_reset};
+
+#[derive(Debug)]
+pub struct Limits;
+
+impl s2n_quic_core::endpoint::Limiter for Limits {
+    fn on_connection_attempt(
+        &mut self,
+        _attempt: &s2n_quic_core::endpoint::limits::ConnectionAttempt,
+    ) -> s2n_quic_core::endpoint::limits::Outcome {
+        s2n_quic_core::endpoint::limits::Outcome::allow()
+    }
+}
+
+macro_rules! verif_config {
+    ($name:ident, $ty:expr) => {
+        #[derive(Debug)]
+        pub struct $name;
+
+        impl endpoint::Config for $name {
+            type CongestionControllerEndpoint =
+                crate::recovery::congestion_controller::testing::mock::Endpoint;
+            type TLSEndpoint = s2n_quic_core::crypto::tls::testing::Endpoint;
+            type PathHandle = path::RemoteAddress;
+            type Connection = connection::Implementation<Self>;
+            type ConnectionLock = std::sync::Mutex<Self::Connection>;
+            type EndpointLimits = Limits;
+            type ConnectionIdFormat = connection::id::testing::Format;
+            type StatelessResetTokenGenerator = stateless_reset::token::testing::Generator;
+            type RandomGenerator = random::testing::Generator;
+            type TokenFormat = s2n_quic_core::token::testing::Format;
+            type ConnectionLimits = s2n_quic_core::connection::limits::Limits;
+            type Mtu = s2n_quic_core::path::mtu::Config;
+            type StreamManager = crate::stream::DefaultStreamManager;
+            type ConnectionCloseFormatter = s2n_quic_core::connection::close::Development;
+            type EventSubscriber = Subscriber;
+            type PathMigrationValidator = path::migration::allow_all::Validator;
+            type PacketInterceptor = s2n_quic_core::packet::interceptor::Disabled;
+            type DatagramEndpoint = s2n_quic_core::datagram::Disabled;
+            type DcEndpoint = s2n_quic_core::dc::testing::MockDcEndpoint;
+
+            fn context(&mut self) -> endpoint::Context<'_, Self> {
+                unimplemented!("the verification drivers never build a whole endpoint")
+            }
+
+            const ENDPOINT_TYPE: s2n_quic_core::endpoint::Type = $ty;
+        }
+    };
+}
+
+verif_config!(VerifServer, s2n_quic_core::endpoint::Type::Server);
+verif_config!(VerifClient, s2n_quic_core::endpoint::Type::Client);
